@@ -159,6 +159,10 @@ func (h volumesResourceHandler) ResolveFilter(
 		}
 		return fmt.Sprintf("first_usage %s ?", common.ConvertOperatorToSQL(operator)), []any{value}, nil
 	case balanceRegex.MatchString(property) || property == "balance":
+		// the map type of the field accepts $exists, which has no meaning for a balance
+		if operator == queries.OperatorExists {
+			return "", nil, common.NewErrInvalidQuery("operator '%s' is not allowed for property '%s'", operator, property)
+		}
 		clauses := make([]string, 0)
 		args := make([]any, 0)
 
